@@ -235,3 +235,96 @@ Scenario make_c01() {
 Registrar reg_c01(make_c01);
 
 }  // namespace
+
+// ================================================================ C02
+namespace {
+
+const std::vector<std::int64_t> kWild = {-(1LL << 62), -86400, -1, 0, 1, 4, 5, 6, 29, 30, 31, 3599, 3600, 3601, 86399, 86400, 86401, 1LL << 31, 1LL << 62};
+
+Plan gen_c02(sk::Rng& r, Tier) {
+    Plan p;
+    auto wild = [&] { return r.chance(1, 3) ? r.range(1, 90000) : r.pick(kWild); };
+    p.knobs["min_ttl"] = wild(); p.knobs["max_ttl"] = wild(); p.knobs["def_ttl"] = wild();
+    p.knobs["rotation"] = wild(); p.knobs["ann_interval"] = wild(); p.knobs["ann_window"] = wild();
+    p.knobs["ann_burst"] = r.pick<std::int64_t>({0, 1, 4, 1000});
+    p.knobs["pow_a"] = r.pick<std::int64_t>({0, 1, 23, 24, 25, 200, 255}); p.knobs["pow_h"] = r.pick<std::int64_t>({0, 1, 23, 24, 25, 255});
+    p.knobs["pow_s"] = r.pick<std::int64_t>({0, 6, 24, 25, 255});
+    p.knobs["cleanup"] = r.pick<std::int64_t>({1, 30, 300});
+    p.knobs["threshold"] = r.range(0, 4); p.knobs["total"] = r.range(0, 6);
+    const int n = static_cast<int>(r.range(1, 10));
+    for (int i = 0; i < n; ++i) {
+        Op op;
+        if (r.chance(3, 4)) { op.k = "store"; op.a = {static_cast<std::int64_t>(r.below(3)), static_cast<std::int64_t>(r.below(200)), r.chance(1, 2) ? r.pick(kWild) : r.range(-10, 100000)}; }
+        else { op.k = "adv"; op.a = {r.pick<std::int64_t>({1, 1000, 60000, 3600000})}; }
+        p.ops.push_back(op);
+    }
+    return p;
+}
+
+void exec_c02(const Plan& p, Ctx& ctx) {
+    en::Config c = base_config(11);
+    c.min_manifest_ttl = seconds(p.knob("min_ttl")); c.max_manifest_ttl = seconds(p.knob("max_ttl")); c.default_chunk_ttl = seconds(p.knob("def_ttl"));
+    c.key_rotation_interval = seconds(p.knob("rotation")); c.announce_min_interval = seconds(p.knob("ann_interval"));
+    c.announce_burst_window = seconds(p.knob("ann_window")); c.announce_burst_limit = static_cast<std::size_t>(p.knob("ann_burst"));
+    c.announce_pow_difficulty = static_cast<std::uint8_t>(p.knob("pow_a")); c.handshake_pow_difficulty = static_cast<std::uint8_t>(p.knob("pow_h"));
+    c.store_pow_difficulty = static_cast<std::uint8_t>(p.knob("pow_s"));
+    c.cleanup_interval = seconds(p.knob("cleanup", 300));
+    c.shard_threshold = static_cast<std::uint8_t>(p.knob("threshold")); c.shard_total = static_cast<std::uint8_t>(p.knob("total"));
+    if (p.knob("min_ttl") > p.knob("max_ttl")) ctx.boundary("inverted_window");
+    if (p.knob("min_ttl") <= 0 || p.knob("max_ttl") <= 0 || p.knob("def_ttl") <= 0) ctx.boundary("non_positive_config_ttl");
+    en::Node node(kSelf, c);
+    const auto& e = node.config();
+    const std::int64_t mn = e.min_manifest_ttl.count(), mx = e.max_manifest_ttl.count(), df = e.default_chunk_ttl.count(), rot = e.key_rotation_interval.count();
+    if (!(1 <= mn && mn <= mx && mx <= 86400))
+        ctx.violate("C02.window", fmt("effective TTL window [%lld,%lld] from config min=%lld max=%lld", (long long)mn, (long long)mx, (long long)p.knob("min_ttl"), (long long)p.knob("max_ttl")));
+    if (!(mn <= df && df <= mx))
+        ctx.violate("C02.default_outside_window", fmt("effective default TTL %lld outside [%lld,%lld]", (long long)df, (long long)mn, (long long)mx));
+    if (!(5 <= rot && rot <= 3600)) ctx.violate("C02.rotation", fmt("effective key rotation %lld s outside [5,3600] (configured %lld)", (long long)rot, (long long)p.knob("rotation")));
+    if (e.announce_pow_difficulty > 24 || e.handshake_pow_difficulty > 24 || e.store_pow_difficulty > 24)
+        ctx.violate("C02.pow_cap", fmt("effective PoW difficulties %u/%u/%u exceed 24", e.announce_pow_difficulty, e.handshake_pow_difficulty, e.store_pow_difficulty));
+    std::uint64_t tag = 1;
+    for (auto& op : p.ops) {
+        ++ctx.ops_done;
+        if (op.k == "adv") { sk::sleep_ns(op.at(0) * kMs); continue; }
+        const en::ChunkId id = make_id(static_cast<std::uint8_t>(op.at(0) + 1));
+        const std::int64_t ttl = op.at(2);
+        if (ttl <= 0) ctx.boundary("non_positive_requested_ttl");
+        if (ttl > mx) ctx.boundary("requested_ttl_above_max");
+        if (ttl > 0 && ttl < mn) ctx.boundary("requested_ttl_below_min");
+        const std::int64_t t = sk::now_ns();
+        const auto manifest = node.store_chunk(id, make_payload(static_cast<std::size_t>(op.at(1)), tag++), seconds(ttl));
+        auto inside = [&](std::int64_t life_ns, const char* what) {
+            if (life_ns < mn * kSec || life_ns > mx * kSec)
+                ctx.violate(std::string("C02.lifetime.") + what, fmt("%s created by store(ttl=%lld) lives %.3f s, window [%lld,%lld]", what, (long long)ttl, life_ns / 1e9, (long long)mn, (long long)mx));
+        };
+        if (auto rec = node.chunk_store_.get_record(id)) inside(steady_to_sim(rec->expires_at) - t, "chunk_record");
+        else ctx.violate("C02.lifetime.chunk_record", fmt("store(ttl=%lld) left no live chunk record", (long long)ttl));
+        inside(wall_to_sim(manifest.expires_at) - t, "manifest_expiry");
+        if (auto sh = node.dht_.shard_record(id)) inside(steady_to_sim(sh->expires_at) - t, "shard_record");
+        else ctx.violate("C02.lifetime.shard_record", fmt("store(ttl=%lld) left no live shard record", (long long)ttl));
+        bool self_found = false;
+        for (auto& loc : node.dht_.snapshot_locators()) {
+            if (loc.id != id) continue;
+            for (auto& h : loc.holders) if (h.id == kSelf) { self_found = true; inside(steady_to_sim(h.expires_at) - t, "self_announcement"); }
+        }
+        if (!self_found) ctx.violate("C02.lifetime.self_announcement", fmt("store(ttl=%lld) left no self provider entry", (long long)ttl));
+        ctx.state(static_cast<std::uint64_t>(mn * 1000003 + mx) ^ static_cast<std::uint64_t>(ttl));
+    }
+}
+
+Scenario make_c02() {
+    Scenario s;
+    s.id = "C02"; s.world = "W1"; s.level = "exploration";
+    s.technique = "deterministic simulation: random/boundary Config values and requested TTLs on a real Node under a simulated clock; exact lifetime arithmetic";
+    s.real_components = {"Node (sanitize_config, store_chunk)", "ChunkStore", "KademliaTable", "Manifest"};
+    s.stub_components = {"OS clock -> simulated", "entropy -> seeded"};
+    s.assumptions = {"control-plane STORE TTL refusal is checked in the daemon world (C28), not here"};
+    s.rule = "plan = Config with each TTL/rotation/announce/PoW field drawn from {negative,0,1,boundaries+-1,2^31,2^62,random} + 1..10 stores with wild requested TTLs; non-trivial = inverted/non-positive window or a requested TTL outside the window; distinct = plan hash";
+    s.gen = gen_c02; s.exec = exec_c02;
+    s.kernel_knobs = [](const Plan&) { sk::Knobs k; k.preempt_per_1024 = 0; return k; };
+    s.quick_runs = 40000; s.thorough_runs = 2000000; s.quick_secs = 30; s.thorough_secs = 600;
+    return s;
+}
+Registrar reg_c02(make_c02);
+
+}  // namespace
